@@ -20,6 +20,7 @@ BUDGET = {
     "quick": {"examples": 250, "shards": 4, "case_timeout": 60, "wall_budget": 240},
     "thorough": {"examples": 6000, "shards": 16, "case_timeout": 120, "wall_budget": 1500},
 }
+FUZZ = {"quick": dict(runs=600, procs=2, wall_s=90), "thorough": dict(runs=40000, procs=16, wall_s=900)}
 TOLERANCES = {"W,U,A": "bit-identical (torch.equal)"}
 
 
